@@ -55,7 +55,11 @@ ASSUMES = [
     "stat-like probes of a lexical ancestor of the root (os.makedirs(root) looks at root's parent) are not a touch "
     "outside the root: the kernel traverses the ancestors for every access anyway",
 ]
-TRUSTED = ["reads of Python source files by linecache while twisted.python.log formats a logged traceback are not recorded",
+TRUSTED = ["harness/py2lean.py (translator: ftp.toSegments is regenerated into lean/Generated/Ftp.lean on every run — the "
+           "for-loop over path.split('/') as List.foldlM of the generated loop body, str.split as the translator's fixed pySplit, "
+           "text as latin-1 code points; translator-regenerated kernel proved equal to the model: TwistedProps.C54.gen_segStep, "
+           "gen_toSegments, gen_toSegments_plain)",
+           "reads of Python source files by linecache while twisted.python.log formats a logged traceback are not recorded",
            "sys.addaudithook events 'open' and 'os.*' plus wrappers around os.stat/os.lstat/os.access "
            "(and twisted.python.filepath.stat) as the record of what the server touched",
            "TwistedModel/Fs/Path.lean + TwistedProps/C26 (posixpath/FilePath model and containment theorems, tied by ./check C26)"]
@@ -65,11 +69,14 @@ MANIFEST = {
             "shell._path never raises InsecurePath and returns exactly root + the utf-8 encoded segments, and every path handed to the "
             "filesystem (targets and listed children) is normalised and has the root's segment list as a prefix; built on the "
             "posixpath/FilePath model and theorems of C26.  Model tied to ftp.py by differential runs of real FTP sessions "
-            "(StringTransport, real DTP on a memory reactor, scratch root with prefix-sharing siblings) and of toSegments.",
+            "(StringTransport, real DTP on a memory reactor, scratch root with prefix-sharing siblings) and of toSegments; "
+            "toSegments itself is regenerated from ftp.py by the translator on every run (loop as a fold) and proved equal to the "
+            "model's toSegments for every cwd and path (gen_toSegments).",
     "note": "trusts Lean kernel, the hand-written models (Fs/Ftp.lean, Fs/Path.lean; differentially tied), CPython posixpath/str semantics, "
             "audit-hook observation",
     "technique": "Lean 4 proof (loop invariant of toSegments + session invariant by induction over the command list, on top of the C26 "
-                 "normpath/child lemmas) + differential tie + audit-hook oracle",
+                 "normpath/child lemmas) + differential tie + audit-hook oracle + translator-regenerated kernel proved equal "
+                 "to the model",
     "design_ref": "DESIGN.md §7.5 C54",
 }
 
